@@ -246,6 +246,27 @@ func genDec(g *genCtx, only map[string]bool) {
 				if len(chain) >= 3 {
 					g.emit(Op{Class: 'P', NonTrivial: true, Kind: "decn", Args: []string{n, strings.Join(chain, "+"), hx(v), hx(poison[i%2])}})
 				}
+				// … and the shape "one LONG input, then several short ones" (buffers that grow and are later trimmed)
+				long, short := pool[0], pool[0]
+				for _, e := range pool {
+					if len(e) > len(long) {
+						long = e
+					}
+					if len(e) < len(short) && len(e) > 0 {
+						short = e
+					}
+				}
+				if len(long) > 0 && len(short) > 0 {
+					ch := []string{hx(long)}
+					for k := 0; k < 3+g.rng.Intn(3); k++ {
+						ch = append(ch, hx(short))
+					}
+					sv := v
+					if i%10 == 0 {
+						sv = short
+					}
+					g.emit(Op{Class: 'P', NonTrivial: true, Kind: "decn", Args: []string{n, strings.Join(ch, "+"), hx(sv), hx(poison[i%2])}})
+				}
 			}
 			if i < 40 || g.thorough() && i < 200 {
 				// every truncation; below the minimum the specification demands an error
